@@ -589,7 +589,8 @@ const corpusRule = "the structured corpus (container chains of every depth with 
 // definitions, and the other way round; every second one referenced twice), n reference links with n definitions, tables of
 // n columns and of n rows, a heading with n attributes / n classes, n emphasis runs, emphasis and bracket nesting of depth
 // n, n links / code spans / autolinks / entities / raw tags / hard breaks in one paragraph, n definitions of one term and
-// n terms, n task items, list nesting of depth n, quote nesting of depth n. Any table, cache, stack or buffer that grows
+// n terms, n task items, list nesting of depth n, quote nesting of depth n; and ONE item used n times (a footnote with n references, a
+// definition used n times, n headings with one text). Any table, cache, stack or buffer that grows
 // with the number of such items crosses each of its thresholds at some n.
 func CountDocs(maxN int) [][]byte {
 	var out [][]byte
@@ -637,6 +638,13 @@ func CountDocs(maxN int) [][]byte {
 			[]byte(rep(deep, func(i int) string { return strings.Repeat("  ", i-1) + fmt.Sprintf("- i%d\n", i) })),
 			[]byte(strings.Repeat("> ", deep)+"q\n"),
 			[]byte(rep(n, func(i int) string { return fmt.Sprintf("~~s%d~~ www.a%d.bc \"q%d\" -- ", i, i, i) })+"\n"),
+			// ONE item used n times: a footnote with n references (and a second one with two), a link reference definition
+			// used n times, n headings with the same text, one term with n references inside its descriptions
+			[]byte(rep(n, func(i int) string { return "r[^1] " })+"s[^2] t[^2]\n\n[^1]: one\n\n[^2]: two\n"),
+			[]byte("[^1]: one\n\n"+rep(n, func(i int) string { return fmt.Sprintf("p%d[^1]\n\n", i) })),
+			[]byte(rep(n, func(i int) string { return "[r] ![r][] [t][R] " })+"\n\n[r]: /u 't'\n"),
+			[]byte(rep(n, func(i int) string { return "# same\n\n" })),
+			[]byte(rep(n, func(i int) string { return fmt.Sprintf("same\n%s\n\n", []string{"===", "---"}[i%2]) })),
 		)
 	}
 	return out
@@ -941,4 +949,27 @@ func sharedContextSub(r *core.Run, name, what string, cfg core.Cfg, docs [][]byt
 	s.States.Store(int64(len(docs)))
 	s.Transitions.Store(s.Evals.Load())
 	s.Done()
+}
+
+// WideDocs returns documents in which ONE node has N children, for N = 2^k-1, 2^k, 2^k+1 (k = 8..maxK): N top-level
+// paragraphs, one list of N items, one paragraph of N emphasis nodes, one paragraph of N lines, one block quote of N
+// paragraphs, one table of N rows, one definition list of N descriptions. Whatever is kept per child or counts children
+// crosses each power of two.
+func WideDocs(maxK int) [][]byte {
+	var out [][]byte
+	for k := 8; k <= maxK; k++ {
+		for _, n := range []int{1<<k - 1, 1 << k, 1<<k + 1} {
+			out = append(out,
+				[]byte(strings.Repeat("a\n\n", n)),
+				[]byte(strings.Repeat("- a\n", n)),
+				[]byte(strings.Repeat("*a* ", n)+"\n"),
+				[]byte(strings.Repeat("a\n", n)),
+				[]byte(strings.Repeat("> a\n>\n", n)),
+				[]byte("|h|\n|-|\n"+strings.Repeat("|c|\n", n)),
+				[]byte("T\n"+strings.Repeat(": d\n", n)),
+				[]byte(strings.Repeat("1. a\n\n", n)),
+			)
+		}
+	}
+	return out
 }
